@@ -69,10 +69,23 @@ def work_builtin(item):
     rv, err = L.call("Crystal_AddCrystal", ctypes.byref(mk(b"Si")), None)
     if rv != 0 or err is None:
         st.violation("builtin:duplicate-accepted", dict(name="Si"), "0 and error", dict(rv=rv, error=err))
+    def snapshot():
+        snap = {}
+        for nm in names0:
+            p, err = L.call("Crystal_GetCrystal", nm, None)
+            if not p:
+                snap[nm] = None
+                continue
+            c = p.contents
+            snap[nm] = (c.name, c.a, c.b, c.c, c.alpha, c.beta, c.gamma, c.volume, tuple((c.atom[i].Zatom, c.atom[i].fraction, c.atom[i].x, c.atom[i].y, c.atom[i].z) for i in range(c.n_atom)))
+            L.fn["Crystal_Free"](p)
+        return snap
+    snap0 = snapshot()
     added = []
     k = 0
+    prefixes = ["0_first", "zz", "Be", "Mica_x", "A", "a", "LiF_", "~last"]   # insertion before, after and between the existing names
     while len(added) + n0 < cap:
-        nm = ("zz_fill_%04d" % k).encode()
+        nm = ("%s_fill_%04d" % (prefixes[k % len(prefixes)], k)).encode()
         k += 1
         st.ev()
         rv, err = L.call("Crystal_AddCrystal", ctypes.byref(mk(nm)), None)
@@ -80,6 +93,14 @@ def work_builtin(item):
             st.violation("builtin:add-rejected-below-capacity", dict(n=len(added) + n0, capacity=cap), "1", dict(rv=rv, error=err))
             break
         added.append(nm)
+        if len(added) in (1, 2, 3, 5, 9) or len(added) + n0 == cap:
+            # the existing entries are untouched by an insertion next to them
+            st.ev()
+            s1 = snapshot()
+            if s1 != snap0:
+                bad = sorted(n for n in snap0 if s1.get(n) != snap0[n])
+                st.violation("builtin:entry-changed-by-insertion", dict(inserted=nm.decode(), n_added=len(added)), "entries as before", [b.decode() for b in bad][:5])
+                break
     st.nt()
     st.ev()
     rv, err = L.call("Crystal_AddCrystal", ctypes.byref(mk(b"one_too_many")), None)
@@ -118,7 +139,7 @@ def run(ctx):
     quick = ctx.quick
     n, steps = (100, 40) if quick else (800, 150)
     ctx.rule = ("Hypothesis RuleBasedStateMachine (seeded): initial capacity 0..12; rules Add(new | existing | NULL), Get(absent), CopyMutateFree, "
-                "ReadFile(well-formed 1..14 crystals | corrupted in 6 ways at any crystal | duplicate of an existing name | missing/NULL path); "
+                "ReadFile(well-formed 1..14 crystals | corrupted in 6 ways at any crystal | duplicate of an existing name | the same new name twice in one file | missing/NULL path); crystals have 0..6 atoms; "
                 "names [A-Za-z0-9_]{1,20} plus >20-character names sharing a 20-character prefix; after every step List == sorted model keys and "
                 "every entry is retrieved and compared (name, cell, atoms, stored volume == recomputed volume); %d histories x <=%d steps per worker, "
                 "8 workers on the plain library + 4 on the ASan/UBSan library; built-in collection filled to capacity in a forked child. "
